@@ -235,6 +235,7 @@ func (c *Check) Violations() int {
 
 // Finish writes the evidence file and exits: 0 if no unlisted violation, 1 otherwise.
 func (c *Check) Finish() {
+	concViolations := 0
 	c.mu.Lock()
 	cov := map[string]any{}
 	for k, v := range c.coverage {
@@ -255,6 +256,9 @@ func (c *Check) Finish() {
 		var conc map[string]any
 		if json.Unmarshal(raw, &conc) == nil {
 			cov["concurrency"] = conc
+			if v, ok := conc["violations"].(float64); ok && v > 0 {
+				concViolations = int(v) // reported (VIOLATION line, replay file) by the interleaving explorer itself
+			}
 		}
 	}
 	knownList := make([]string, 0, len(c.known))
@@ -274,9 +278,9 @@ func (c *Check) Finish() {
 		"coverage":    cov,
 		"assumptions": append([]string{}, c.assume...),
 		"wall_s":      time.Since(c.start).Seconds(),
-		"violations":  len(c.violations),
+		"violations":  len(c.violations) + concViolations,
 	}
-	nviol := len(c.violations)
+	nviol := len(c.violations) + concViolations
 	c.mu.Unlock()
 	body, err := json.MarshalIndent(ev, "", " ")
 	if err != nil {
